@@ -1,6 +1,7 @@
 (** Model of the string and key-space commands: server.rs handle_set ..
     handle_renamenx, commands/strings.rs, and the engine.rs functions they call
-    (after the repairs 3f1bb0a, 9f58b0e, 6d37cd4, b7ebfaa, 7e7b351).
+    (after the repairs 3f1bb0a, 9f58b0e, 6d37cd4, b7ebfaa, 7e7b351, and e0df64a, 0e6458f,
+    0bd9e72, 5887f54: SETRANGE with an empty value, SET EX with PX, SETEX 0, canonical integers).
     Each handler: [now -> db -> parts -> reply * db], parts = whole command. *)
 From Ferrous Require Import Base.Bytes Generated Model.Resp Model.Types Model.Glob.
 Open Scope Z_scope.
@@ -100,7 +101,8 @@ Definition nparts (parts : list frame) : Z := len parts.
 
 (** ---- handlers ---- *)
 Inductive setopt := SetOpts (ttl : option Z) (nx xx : bool) | SetSyntax | SetBadExpire.
-Fixpoint parse_set_opts (fuel : nat) (opts : list frame) (ttl : option Z) (nx xx : bool) : setopt :=
+(** the option loop of handle_set; [ex] / [px]: EX / PX has been seen (0e6458f: each excludes the other) *)
+Fixpoint parse_set_opts (fuel : nat) (opts : list frame) (ttl : option Z) (ex px nx xx : bool) : setopt :=
   match fuel with
   | O => SetOpts ttl nx xx
   | S f =>
@@ -109,29 +111,31 @@ Fixpoint parse_set_opts (fuel : nat) (opts : list frame) (ttl : option Z) (nx xx
     | FBulk o :: rest =>
         let u := upper o in
         if beq u (bs "EX") then
+          if px then SetSyntax else                        (* 0e6458f: EX after PX is a syntax error *)
           match rest with
           | [] => SetSyntax
           | FBulk s :: rest' =>
               match parse_u64 s with
               | Some n => if n =? 0 then SetBadExpire      (* 48bcb4d: the expire time must be positive *)
-                          else parse_set_opts f rest' (Some (n * 1000)) nx xx
+                          else parse_set_opts f rest' (Some (n * 1000)) true px nx xx
               | None => SetBadExpire
               end
           | _ => SetBadExpire
           end
         else if beq u (bs "PX") then
+          if ex then SetSyntax else                        (* 0e6458f: PX after EX is a syntax error *)
           match rest with
           | [] => SetSyntax
           | FBulk s :: rest' =>
               match parse_u64 s with
               | Some n => if n =? 0 then SetBadExpire
-                          else parse_set_opts f rest' (Some n) nx xx
+                          else parse_set_opts f rest' (Some n) ex true nx xx
               | None => SetBadExpire
               end
           | _ => SetBadExpire
           end
-        else if beq u (bs "NX") then parse_set_opts f rest ttl true xx
-        else if beq u (bs "XX") then parse_set_opts f rest ttl nx true
+        else if beq u (bs "NX") then parse_set_opts f rest ttl ex px true xx
+        else if beq u (bs "XX") then parse_set_opts f rest ttl ex px nx true
         else SetSyntax
     | _ => SetSyntax
     end
@@ -145,7 +149,7 @@ Definition h_set (now : Z) (d : db) (parts : list frame) : frame * db :=
       match arg_bytes v with
       | None => (r_err, d)
       | Some vb =>
-          match parse_set_opts (length parts) (skipn 3 parts) None false false with
+          match parse_set_opts (length parts) (skipn 3 parts) None false false false false with
           | SetSyntax | SetBadExpire => (r_err, d)
           | SetOpts ttl nx xx =>
               if nx && xx then (r_err, d) else          (* f4c6282: NX and XX exclude each other *)
@@ -187,13 +191,28 @@ Definition h_get (now : Z) (d : db) (parts : list frame) : frame * db :=
       end
   end.
 
+(** value.rs parse_canonical_i64 (5887f54): the canonical decimal form of an i64 only, as Redis'
+    string2ll - an optional '-', then digits with no leading zero (the single "0" excepted); no
+    '+', no "-0", no surrounding space, nothing out of range.  After a first digit 1-9 what
+    [str::parse] accepts is what it always accepts: digits, in range. *)
+Definition parse_canonical (b : bytes) : option Z :=
+  let negative := match b with c :: _ => c =? 45 | [] => false end in
+  let digits := if negative then tl b else b in
+  match digits with
+  | [] => None
+  | c :: r =>
+      if c =? 48 then (match r with [] => if negative then None else Some 0 | _ => None end)
+      else if (49 <=? c) && (c <=? 57) then parse_i64 b
+      else None
+  end.
+
 (** incr_by: no expiry check; non-string and non-integer both NotInteger *)
 Definition eng_incr_by (d : db) (k : bytes) (inc : Z) : option Z * db :=
   match get_entry d k with
   | Some e =>
       match e_val e with
       | VStr b =>
-          match parse_i64 b with
+          match parse_canonical b with
           | Some cur =>
               if in_i64 (cur + inc)
               then (Some (cur + inc), put_entry d k {| e_val := VStr (print_int (cur + inc)); e_exp := e_exp e |})
@@ -223,7 +242,7 @@ Definition h_incrby (d : db) (parts : list frame) : frame * db :=
       if beq k [] then (r_err, d) else
       match nth_arg parts 2 with
       | None => (r_err, d)
-      | Some a => match parse_i64 a with
+      | Some a => match parse_canonical a with
                   | None => (r_err, d)
                   | Some n => reply_incr (eng_incr_by d k n)
                   end
@@ -237,7 +256,7 @@ Definition h_decrby (d : db) (parts : list frame) : frame * db :=
   | Some k =>
       match nth_arg parts 2 with
       | None => (r_err, d)
-      | Some a => match parse_i64 a with
+      | Some a => match parse_canonical a with
                   | None => (r_err, d)
                   | Some n => if n =? i64_min then (r_err, d) else reply_incr (eng_incr_by d k (- n))
                   end
@@ -373,6 +392,7 @@ Definition h_setex (mult : Z) (now : Z) (d : db) (parts : list frame) : frame * 
           match parse_u64 a with
           | None => (r_err, d)
           | Some n =>
+              if n =? 0 then (r_err, d) else               (* 0bd9e72: the expire time must be positive *)
               match nth_arg parts 3 with
               | None => (r_err, d)
               | Some v => if ttl_ok (n * mult) then (r_ok, set_value now d k (VStr v) (Some (n * mult)))
@@ -503,6 +523,29 @@ Definition setrange_bytes (b : bytes) (off : Z) (v : bytes) : bytes :=
   let b' := if len b <? need then b ++ zeros (need - len b) else b in
   zfirstn off b' ++ v ++ zskipn need b'.
 
+(** engine.rs setrange; e0df64a: an empty value changes nothing, whatever the offset - the reply is
+    the current length (0 for a missing key, WRONGTYPE for another type), before the size check *)
+Definition eng_setrange (d : db) (k : bytes) (off : Z) (v : bytes) : frame * db :=
+  if len v =? 0 then
+    match get_entry d k with
+    | Some en => match e_val en with
+                 | VStr b => (r_int (len b), d)
+                 | _ => (r_wrongtype, d)
+                 end
+    | None => (r_int 0, d)
+    end
+  else
+  if (max_string_len <? off) || (max_string_len - off <? len v) then (r_err, d) else
+  match get_entry d k with
+  | Some en => match e_val en with
+               | VStr b => let nb := setrange_bytes b off v in
+                           (r_int (len nb), put_entry d k {| e_val := VStr nb; e_exp := e_exp en |})
+               | _ => (r_wrongtype, d)
+               end
+  | None => let nb := zeros off ++ v in
+            (r_int (len nb), put_entry d k {| e_val := VStr nb; e_exp := None |})
+  end.
+
 Definition h_setrange (d : db) (parts : list frame) : frame * db :=
   if negb (nparts parts =? 4) then (r_err, d) else
   match nth_arg parts 1 with
@@ -516,18 +559,7 @@ Definition h_setrange (d : db) (parts : list frame) : frame * db :=
         | Some off =>
           match nth_arg parts 3 with
           | None => (r_err, d)
-          | Some v =>
-              if (max_string_len <? off) || (max_string_len - off <? len v) then (r_err, d) else
-              match get_entry d k with
-              | Some en => match e_val en with
-                           | VStr b => let nb := setrange_bytes b off v in
-                                       (r_int (len nb), put_entry d k {| e_val := VStr nb; e_exp := e_exp en |})
-                           | _ => (r_wrongtype, d)
-                           end
-              | None => if len v =? 0 then (r_int 0, d)      (* 1a8fa0e: setting nothing creates nothing *)
-                        else let nb := zeros off ++ v in
-                        (r_int (len nb), put_entry d k {| e_val := VStr nb; e_exp := None |})
-              end
+          | Some v => eng_setrange d k off v
           end
         end
       end
